@@ -67,7 +67,9 @@ Lemma run_disabler_misc : forall d s,
   disablers (run_disabler d s) = disablers s /\ next (run_disabler d s) = next s /\
   attempted (run_disabler d s) = attempted s /\ user_ns (run_disabler d s) = user_ns s /\
   log_pre (run_disabler d s) = log_pre s /\ log_dirty (run_disabler d s) = log_dirty s /\
-  ast_tr (run_disabler d s) = (if removes_ast d then None else ast_tr s).
+  ast_tr (run_disabler d s) = (if removes_ast d then None else ast_tr s) /\
+  has_shell (run_disabler d s) = has_shell s /\ pending (run_disabler d s) = pending s /\
+  registered (run_disabler d s) = registered s.
 Proof.
   intros [jj w p | l x] s; cbn.
   - unfold unadvise. destruct (val_eqb (slot s jj) w); [cbn; repeat split|].
@@ -89,13 +91,14 @@ Lemma run_disablers_spec : forall ds s,
   (forall l, get_list l s' = undo_list l ds (get_list l s)) /\
   st s' = st s /\ errored s' = errored s /\ disablers s' = [] /\ next s' = next s /\
   attempted s' = attempted s /\ user_ns s' = user_ns s /\ log_pre s' = log_pre s /\ log_dirty s' = log_dirty s /\
-  ast_tr s' = (if existsb removes_ast ds then None else ast_tr s).
+  ast_tr s' = (if existsb removes_ast ds then None else ast_tr s) /\
+  has_shell s' = has_shell s /\ pending s' = pending s /\ registered s' = registered s.
 Proof.
   induction ds as [|d r IH]; intros s; cbn.
   - repeat split; intros; try destruct l; reflexivity.
   - specialize (IH (run_disabler d (set_disablers r s))).
-    cbn in IH. destruct IH as (Hs & Hl & H1 & H2 & H3 & H4 & H5 & H6 & H7 & H8 & H9).
-    pose proof (run_disabler_misc d (set_disablers r s)) as (M1 & M2 & M3 & M4 & M5 & M6 & M7 & M8 & M9).
+    cbn in IH. destruct IH as (Hs & Hl & H1 & H2 & H3 & H4 & H5 & H6 & H7 & H8 & H9 & H10 & H11 & H12).
+    pose proof (run_disabler_misc d (set_disablers r s)) as (M1 & M2 & M3 & M4 & M5 & M6 & M7 & M8 & M9 & M10 & M11 & M12).
     repeat split.
     + intros j. rewrite Hs. apply undo_slots_ext. intros k. rewrite run_disabler_slot. reflexivity.
     + intros l. rewrite Hl. rewrite run_disabler_list. destruct l; reflexivity.
@@ -108,6 +111,9 @@ Proof.
     + rewrite H7, M7. reflexivity.
     + rewrite H8, M8. reflexivity.
     + rewrite H9, M9. cbn. destruct (removes_ast d); cbn; [destruct (existsb removes_ast r); reflexivity|reflexivity].
+    + rewrite H10, M10. reflexivity.
+    + rewrite H11, M11. reflexivity.
+    + rewrite H12, M12. reflexivity.
 Qed.
 
 (* ------------------------------------------------------------------------------------------ *)
@@ -341,7 +347,8 @@ Qed.
 (* installation steps do not touch the state machine, the error flag, the namespace *)
 Lemma inst_misc : forall s s', inst s s' ->
   st s' = st s /\ errored s' = errored s /\ user_ns s' = user_ns s /\ attempted s' = attempted s /\
-  log_pre s' = log_pre s /\ log_dirty s' = log_dirty s.
+  log_pre s' = log_pre s /\ log_dirty s' = log_dirty s /\
+  has_shell s' = has_shell s /\ pending s' = pending s /\ registered s' = registered s.
 Proof.
   intros s s' H. induction H.
   - repeat split.
@@ -349,7 +356,7 @@ Proof.
   - unfold append_hook. destruct l; repeat split.
   - repeat split.
   - repeat split.
-  - destruct IHinst1 as (A1 & A2 & A3 & A4 & A5 & A6), IHinst2 as (B1 & B2 & B3 & B4 & B5 & B6).
+  - destruct IHinst1 as (A1 & A2 & A3 & A4 & A5 & A6 & A7 & A8 & A9), IHinst2 as (B1 & B2 & B3 & B4 & B5 & B6 & B7 & B8 & B9).
     repeat split; congruence.
 Qed.
 
@@ -415,6 +422,7 @@ Qed.
 Lemma inst_shell_hooks : forall s, inst s (res_state (enable_shell_hooks E s)).
 Proof.
   intros s. unfold enable_shell_hooks. destruct (negb (estate_eqb (st s) ENABLING)); [apply inst_refl|].
+  destruct (negb (has_shell s)); [apply inst_refl|].
   apply inst_run_hooks. unfold shell_hooks.
   repeat constructor; auto using inst_reset, inst_ofind, inst_ast, inst_magic, inst_prun, inst_completion, inst_run, inst_debugger.
 Qed.
@@ -453,14 +461,17 @@ Qed.
 Lemma disable_good : forall b s, no_advice b -> good b s -> st s <> DISABLED ->
   let s' := disable s in
   good b s' /\ at_base b s' /\ st s' = DISABLED /\ errored s' = errored s /\ user_ns s' = user_ns s /\
-  attempted s' = attempted s /\ log_pre s' = log_pre s /\ log_dirty s' = log_dirty s /\ next s' = next s.
+  attempted s' = attempted s /\ log_pre s' = log_pre s /\ log_dirty s' = log_dirty s /\ next s' = next s /\
+  has_shell s' = has_shell s /\ registered s' = registered s.
 Proof.
   intros b s Hb Hg Hst. unfold disable.
   destruct (estate_eqb (st s) DISABLED) eqn:He; [apply estate_eqb_eq in He; contradiction|].
   cbn zeta.
   pose proof (run_disablers_spec (disablers (set_st DISABLING s)) (set_st DISABLING s)) as
-    (Rs & Rl & R1 & R2 & R3 & R4 & R5 & R6 & R7 & R8 & R9).
+    (Rs & Rl & R1 & R2 & R3 & R4 & R5 & R6 & R7 & R8 & R9 & R10 & R11 & R12).
   cbn zeta in *. change (disablers (set_st DISABLING s)) with (disablers s) in *.
+  change (has_shell (set_st DISABLING s)) with (has_shell s) in R10.
+  change (registered (set_st DISABLING s)) with (registered s) in R12.
   set (r := run_disablers (disablers s) (set_st DISABLING s)) in *.
   destruct Hg as [Hf (U1 & U2 & U3 & U4) Ho Ha].
   assert (Htr : ast_tr r = None).
@@ -559,6 +570,7 @@ Qed.
 Lemma cr_shell_hooks : forall l s, cr l (res_state (enable_shell_hooks E s)) <= cr l s + 1.
 Proof.
   intros l s. unfold enable_shell_hooks. destruct (negb (estate_eqb (st s) ENABLING)); [cbn; lia|].
+  destruct (negb (has_shell s)); [cbn; lia|].
   pose proof (cr_run_hooks l (shell_hooks E) [d_reset l; 0; d_ast l; 0; 0; 0; 0; 0; 0]) as H.
   assert (HF : Forall2 (fun h d => forall s, cr l (res_state (h s)) <= cr l s + d) (shell_hooks E)
                        [d_reset l; 0; d_ast l; 0; 0; 0; 0; 0; 0]).
@@ -582,6 +594,7 @@ Lemma shell_hooks_raise : forall s s' e, enable_shell_hooks E s = Raise s' e -> 
 Proof.
   intros s s' e H. unfold enable_shell_hooks in H.
   destruct (negb (estate_eqb (st s) ENABLING)); [discriminate H|].
+  destruct (negb (has_shell s)); [discriminate H|].
   eapply run_hooks_raise; [|exact H]. unfold shell_hooks.
   repeat constructor; intros s0 s1 e0 H0.
   - unfold enable_reset_hook in H0. destruct (e_reset E); discriminate H0.
@@ -754,9 +767,15 @@ Qed.
 
 Definition once_lists (s : state) : Prop := forall l, cr l s <= 1.
 
+(* between operations: DISABLED with nothing left; ENABLED (a shell exists) with every hook installed once;
+   or ENABLING - enabled before the shell exists, waiting for init_shell() - with only the initializer
+   advice on the stack *)
 Definition Inv (b : base) (s : state) : Prop :=
   good b s /\
-  ((st s = DISABLED /\ disablers s = [] /\ ast_tr s = None) \/ (st s = ENABLED /\ once_lists s /\ installed s)).
+  ((st s = DISABLED /\ disablers s = [] /\ ast_tr s = None) \/
+   (st s = ENABLED /\ has_shell s = true /\ once_lists s /\ installed s) \/
+   (st s = ENABLING /\ has_shell s = false /\ errored s = false /\ is_advice (slot s JInitShell) = true /\
+    forall l, cr l s = 0)).
 
 Lemma good_ext : forall b s s',
   slot s' = slot s -> (forall l, get_list l s' = get_list l s) -> disablers s' = disablers s ->
@@ -773,67 +792,144 @@ Qed.
 
 Lemma Inv_disabled_at_base : forall b s, Inv b s -> st s = DISABLED -> at_base b s.
 Proof.
-  intros b s [Hg [[_ [Hd Ht]]|[He _]]] Hst; [|congruence].
+  intros b s [Hg [[_ [Hd Ht]]|[[He _]|[He _]]]] Hst; try congruence.
   apply good_empty_at_base; assumption.
 Qed.
 
 Lemma disable_inv : forall b s, no_advice b -> Inv b s -> Inv b (disable s) /\ st (disable s) = DISABLED.
 Proof.
-  intros b s Hb [Hg Hc]. destruct Hc as [[Hst [Hd Ht]]|[Hst [Hl _]]].
+  intros b s Hb [Hg Hc].
+  assert (Hgen : st s <> DISABLED -> Inv b (disable s) /\ st (disable s) = DISABLED).
+  { intros Hne. pose proof (disable_good b s Hb Hg Hne) as (G & (A1 & A2 & A3 & A4 & A5 & A6) & S & _). cbn zeta in *.
+    split; [|exact S]. split; [exact G|left; auto]. }
+  destruct Hc as [[Hst [Hd Ht]]|[[Hst _]|[Hst _]]].
   - rewrite disable_noop by exact Hst. split; [|exact Hst]. split; [exact Hg|left; auto].
-  - assert (Hne : st s <> DISABLED) by congruence.
-    pose proof (disable_good b s Hb Hg Hne) as (G & (A1 & A2 & A3 & A4 & A5 & A6) & S & _). cbn zeta in *.
-    split; [|exact S]. split; [exact G|left; auto].
+  - apply Hgen. congruence.
+  - apply Hgen. congruence.
 Qed.
+
+Lemma cr_initializer : forall l s, cr l (enable_initializer_hooks E s) = cr l s.
+Proof.
+  intros l s. unfold enable_initializer_hooks. destruct (has_shell s); [reflexivity|].
+  change (cr l (set_pending true ?x)) with (cr l x).
+  destruct (e_init_subcmd E); rewrite ?cr_advise; reflexivity.
+Qed.
+
+(* the initializer hooks are installation steps followed by the assignment of _pending_initializers *)
+Lemma initializer_spec : forall s, exists s1,
+  inst s s1 /\ enable_initializer_hooks E s = set_pending (negb (has_shell s)) s1 /\
+  (has_shell s = false -> is_advice (slot s1 JInitShell) = true).
+Proof.
+  intros s. unfold enable_initializer_hooks. destruct (has_shell s) eqn:Hs.
+  - exists s. split; [apply inst_refl|]. split; [reflexivity|discriminate].
+  - destruct (e_init_subcmd E).
+    + eexists. split; [eapply inst_trans; apply inst_adv|]. split; [reflexivity|].
+      intros _. apply advise_once_keeps. apply advise_once_advised.
+    + eexists. split; [apply inst_adv|]. split; [reflexivity|]. intros _. apply advise_once_advised.
+Qed.
+
+(* one run of _enable_internal through _safe_call, from a state in ENABLING with no list remover on the stack
+   (reached from enable() and from init_shell()'s _continue_enable()) *)
+Lemma enable_internal_inv : forall b s2, no_advice b ->
+  good b s2 -> errored s2 = false -> st s2 = ENABLING -> (forall l, cr l s2 = 0) ->
+  Inv b (res_state (safe_call (e_debug E) RIfDebug (enable_internal E) None s2)).
+Proof.
+  intros b s2 Hb Hg2 He2 Hst2 Hcr2.
+  unfold safe_call. rewrite He2. unfold enable_internal.
+  destruct (initializer_spec s2) as (s1 & Hi1 & Heq & Hadv1).
+  set (s3 := enable_initializer_hooks E s2) in *.
+  pose proof (inst_misc s2 s1 Hi1) as (N1 & N2 & _ & _ & _ & _ & N7 & _ & _).
+  assert (Hg3 : good b s3).
+  { rewrite Heq. eapply good_ext; [..|exact (good_inst b s2 s1 Hi1 Hg2)]; try reflexivity; try (intros l; destruct l; reflexivity). }
+  assert (Hst3 : st s3 = ENABLING) by (rewrite Heq; cbn; congruence).
+  assert (He3 : errored s3 = false) by (rewrite Heq; cbn; congruence).
+  assert (Hsh3 : has_shell s3 = has_shell s2) by (rewrite Heq; cbn; exact N7).
+  assert (Hp3 : pending s3 = negb (has_shell s2)) by (rewrite Heq; reflexivity).
+  assert (Hcr3 : forall l, cr l s3 = 0) by (intros l; unfold s3; rewrite cr_initializer; apply Hcr2).
+  pose proof (inst_shell_hooks s3) as Hinst.
+  pose proof (fun l => cr_shell_hooks l s3) as Hcr.
+  destruct (enable_shell_hooks E s3) as [s' ok|s' e] eqn:Hh; cbn [bind res_state] in *.
+  - pose proof (good_inst b s3 s' Hinst Hg3) as Hg'.
+    pose proof (inst_misc s3 s' Hinst) as (M1 & M2 & _ & _ & _ & _ & M7 & M8 & _).
+    assert (Henabled : has_shell s2 = true -> Inv b (set_st ENABLED s')).
+    { intros Hsh. split.
+      - eapply good_ext; [..|exact Hg']; try reflexivity; try (intros l; destruct l; reflexivity).
+      - right. left. split; [reflexivity|]. split; [cbn; congruence|]. split.
+        + intros l. specialize (Hcr l). rewrite Hcr3 in Hcr. change (cr l (set_st ENABLED s')) with (cr l s'). lia.
+        + unfold enable_shell_hooks in Hh. rewrite Hst3, Hsh3, Hsh in Hh. cbn [estate_eqb negb] in Hh.
+          eapply installed_ext; [..|exact (shell_hooks_installed s3 s' ok Hh)]; reflexivity. }
+    destruct (has_shell s2) eqn:Hsh.
+    + (* a shell exists: ENABLED whatever ok says, because nothing is pending *)
+      assert (Hp' : pending s' = false) by (rewrite M8, Hp3; reflexivity).
+      destruct ok; [|rewrite Hp']; cbn [res_state]; apply Henabled; reflexivity.
+    + (* no shell yet: the shell hooks returned False at once, the initializers are pending: stay ENABLING *)
+      unfold enable_shell_hooks in Hh. rewrite Hst3, Hsh3 in Hh. cbn [estate_eqb negb] in Hh.
+      inversion Hh; subst s' ok. rewrite Hp3. cbn [negb res_state].
+      split; [exact Hg3|]. right. right. repeat split; try assumption; try congruence.
+      rewrite Heq. exact (Hadv1 eq_refl).
+  - (* a hook raised (F14): errored, disable *)
+    rewrite (shell_hooks_raise s3 s' e Hh).
+    pose proof (good_inst b s3 s' Hinst Hg3) as Hg'.
+    pose proof (inst_misc s3 s' Hinst) as (M1 & _).
+    set (s4 := log_emit (set_errored true s')).
+    assert (Hg4 : good b s4).
+    { eapply good_ext; [..|exact Hg']; unfold s4, log_emit; destruct (log_pre (set_errored true s')); try reflexivity;
+        try (intros l; destruct l; reflexivity). }
+    assert (Hst4 : st s4 <> DISABLED).
+    { unfold s4, log_emit. destruct (log_pre (set_errored true s')); cbn; rewrite M1, Hst3; discriminate. }
+    pose proof (disable_good b s4 Hb Hg4 Hst4) as (G & (A1 & A2 & A3 & A4 & A5 & A6) & S & _). cbn zeta in *.
+    assert (HI' : Inv b (disable s4)) by (split; [exact G|left; auto]).
+    destruct (e_debug E); cbn [bind res_state]; exact HI'.
+Qed.
+
+Lemma res_state_bind_unit : forall (m : res (option unit)),
+  res_state (bind m (fun s' _ => Ret s' tt)) = res_state m.
+Proof. intros [? ?|? ?]; reflexivity. Qed.
 
 Lemma enable_inv : forall b force s, no_advice b -> Inv b s -> Inv b (res_state (enable E force s)).
 Proof.
   intros b force s Hb HI. pose proof HI as [Hg Hc]. unfold enable.
   destruct (st s) eqn:Hst; try exact HI.
-  destruct Hc as [[_ [Hd Ht]]|[X _]]; [|congruence].
+  destruct Hc as [[_ [Hd Ht]]|[[X _]|[X _]]]; try congruence.
   destruct (errored (reset_state_new_cell s) && negb force).
   - cbn [res_state]. split.
     + eapply good_ext; [..|exact Hg]; try reflexivity; try (intros l; destruct l; reflexivity).
     + left. repeat split; assumption.
   - set (s2 := set_st ENABLING (set_errored false (reset_state_new_cell s))).
-    assert (Hg2 : good b s2).
-    { eapply good_ext; [..|exact Hg]; try reflexivity; try (intros l; destruct l; reflexivity). }
-    assert (He2 : errored s2 = false) by reflexivity.
-    assert (Hst2 : st s2 = ENABLING) by reflexivity.
-    assert (Hcr2 : forall l, cr l s2 = 0).
-    { intros l. unfold cr. change (disablers s2) with (disablers s). rewrite Hd. reflexivity. }
-    unfold safe_call. rewrite He2. unfold enable_internal.
-    pose proof (inst_shell_hooks s2) as Hinst.
-    pose proof (fun l => cr_shell_hooks l s2) as Hcr.
-    destruct (enable_shell_hooks E s2) as [s' ok|s' e] eqn:Hh; cbn [bind res_state] in *.
-    + (* all hooks returned: ENABLED *)
-      pose proof (good_inst b s2 s' Hinst Hg2) as Hg'.
-      split.
-      * eapply good_ext; [..|exact Hg']; try reflexivity; try (intros l; destruct l; reflexivity).
-      * right. split; [reflexivity|]. split.
-        -- intros l. specialize (Hcr l). rewrite Hcr2 in Hcr.
-           change (cr l (set_st ENABLED s')) with (cr l s'). lia.
-        -- unfold enable_shell_hooks in Hh. rewrite Hst2 in Hh. cbn [estate_eqb negb] in Hh.
-           eapply installed_ext; [..|exact (shell_hooks_installed s2 s' ok Hh)]; reflexivity.
-    + (* a hook raised (F14): errored, disable *)
-      rewrite (shell_hooks_raise s2 s' e Hh).
-      pose proof (good_inst b s2 s' Hinst Hg2) as Hg'.
-      pose proof (inst_misc s2 s' Hinst) as (M1 & _).
-      set (s3 := log_emit (set_errored true s')).
-      assert (Hg3 : good b s3).
-      { eapply good_ext; [..|exact Hg']; unfold s3, log_emit; destruct (log_pre (set_errored true s')); try reflexivity;
-          try (intros l; destruct l; reflexivity). }
-      assert (Hst3 : st s3 <> DISABLED).
-      { unfold s3, log_emit. destruct (log_pre (set_errored true s')); cbn; rewrite M1, Hst2; discriminate. }
-      pose proof (disable_good b s3 Hb Hg3 Hst3) as (G & (A1 & A2 & A3 & A4 & A5 & A6) & S & _). cbn zeta in *.
-      assert (HI' : Inv b (disable s3)) by (split; [exact G|left; auto]).
-      destruct (e_debug E); cbn [bind res_state]; exact HI'.
+    rewrite res_state_bind_unit. apply enable_internal_inv; try reflexivity; try assumption.
+    + eapply good_ext; [..|exact Hg]; try reflexivity; try (intros l; destruct l; reflexivity).
+    + intros l. unfold cr. change (disablers s2) with (disablers s). rewrite Hd. reflexivity.
 Qed.
 
+Lemma initialize_inv : forall b s, no_advice b -> Inv b s -> Inv b (res_state (initialize E s)).
+Proof.
+  intros b s Hb HI. pose proof HI as [Hg Hc]. unfold initialize.
+  destruct (has_shell s) eqn:Hsh; [exact HI|].
+  assert (Hg' : good b (set_has_shell true s)).
+  { eapply good_ext; [..|exact Hg]; try reflexivity; try (intros l; destruct l; reflexivity). }
+  destruct Hc as [[Hst [Hd Ht]]|[[Hst [X _]]|[Hst [_ [Herr [Hadv Hcr]]]]]]; try congruence.
+  - (* DISABLED: whether init_shell is still advised or not, nothing happens besides the shell coming to exist *)
+    assert (HI' : Inv b (set_has_shell true s)) by (split; [exact Hg'|left; auto]).
+    destruct (is_advice (slot s JInitShell)); [|exact HI'].
+    unfold continue_enable. change (st (set_has_shell true s)) with (st s). rewrite Hst. exact HI'.
+  - (* ENABLING: init_shell is advised: the continuation runs _enable_internal *)
+    rewrite Hadv.
+    unfold continue_enable. change (st (set_has_shell true s)) with (st s). rewrite Hst. cbn [estate_eqb negb].
+    rewrite res_state_bind_unit. apply enable_internal_inv; try assumption; reflexivity.
+Qed.
 Definition ShInv (b : base) (sh : shell) : Prop := Inv b (ai sh).
 
-Lemma finish_ai : forall ld m ld', ai (finish ld m ld') = res_state m.
-Proof. intros ld [s u|s e] ld'; reflexivity. Qed.
+Lemma finish_ai : forall sh m ld' a, ai (finish sh m ld' a) = res_state m.
+Proof. intros sh [s u|s e] ld' a; reflexivity. Qed.
+
+Lemma Inv_set_registered : forall b r s, Inv b s -> Inv b (set_registered r s).
+Proof.
+  intros b r s [Hg Hc]. split.
+  - eapply good_ext; [..|exact Hg]; try reflexivity; try (intros l; destruct l; reflexivity).
+  - destruct Hc as [H|[(H1 & H2 & H3 & H4)|H]]; [left; exact H| |right; right; exact H].
+    right. left. split; [exact H1|]. split; [exact H2|]. split; [exact H3|].
+    eapply installed_ext; [..|exact H4]; reflexivity.
+Qed.
 
 Lemma step_inv : forall b o sh, no_advice b -> ShInv b sh -> ShInv b (step E sh o).
 Proof.
@@ -851,6 +947,8 @@ Proof.
     + apply enable_inv; assumption.
   - rewrite finish_ai. apply enable_inv; assumption.
   - rewrite finish_ai. cbn [res_state]. apply disable_inv; assumption.
+  - rewrite finish_ai. apply initialize_inv; assumption.
+  - destruct (ext_attr sh); cbn [ai]; [apply Inv_set_registered|]; exact HI.
 Qed.
 
 Lemma run_inv : forall b ops sh, no_advice b -> ShInv b sh -> ShInv b (run E ops sh).
@@ -880,18 +978,18 @@ Qed.
 
 (* after any history, whenever the importer is DISABLED (after a disable, an unload, a failed enable),
    every joinpoint and every hook list has the value it had before pyflyby was first enabled *)
-Theorem disable_restores_any : forall ops s0 ld esc,
+Theorem disable_restores_any : forall ops s0 ld esc at_,
   clean s0 ->
-  let s := ai (run E ops (mkShell s0 ld esc)) in
+  let s := ai (run E ops (mkShell s0 ld esc at_)) in
   st s = DISABLED ->
   (forall j, slot s j = slot s0 j) /\ ast_l s = ast_l s0 /\ line_l s = line_l s0 /\
   (f6_fixed E = true -> cleanup_l s = cleanup_l s0) /\
   (exists extra, cleanup_l s = cleanup_l s0 ++ extra) /\
   disablers s = [] /\ ast_tr s = None.
 Proof.
-  intros ops s0 ld esc Hc s Hst.
+  intros ops s0 ld esc at_ Hc s Hst.
   destruct (clean_inv s0 Hc) as [HI Hb].
-  pose proof (run_inv (base_of s0) ops (mkShell s0 ld esc) Hb HI) as HR.
+  pose proof (run_inv (base_of s0) ops (mkShell s0 ld esc at_) Hb HI) as HR.
   pose proof (Inv_disabled_at_base _ _ HR Hst) as (A1 & A2 & A3 & A4 & A5 & A6). fold s in A1, A2, A3, A4, A5, A6.
   cbn in *. repeat split; try assumption.
   - intros F6. rewrite F6 in A4. exact A4.
@@ -901,72 +999,75 @@ Qed.
 Lemma run_app : forall ops1 ops2 sh, run E (ops1 ++ ops2) sh = run E ops2 (run E ops1 sh).
 Proof. intros. unfold run. apply fold_left_app. Qed.
 
-Theorem disable_restores : forall ops s0 ld esc,
+Theorem disable_restores : forall ops s0 ld esc at_,
   clean s0 -> f6_fixed E = true ->
-  let s := ai (run E (ops ++ [Disable]) (mkShell s0 ld esc)) in
+  let s := ai (run E (ops ++ [Disable]) (mkShell s0 ld esc at_)) in
   st s = DISABLED /\ (forall j, slot s j = slot s0 j) /\
   ast_l s = ast_l s0 /\ cleanup_l s = cleanup_l s0 /\ line_l s = line_l s0 /\
   disablers s = [] /\ ast_tr s = None.
 Proof.
-  intros ops s0 ld esc Hc F6 s.
+  intros ops s0 ld esc at_ Hc F6 s.
   destruct (clean_inv s0 Hc) as [HI Hb].
-  pose proof (run_inv (base_of s0) ops (mkShell s0 ld esc) Hb HI) as HR.
+  pose proof (run_inv (base_of s0) ops (mkShell s0 ld esc at_) Hb HI) as HR.
   assert (Hst : st s = DISABLED).
   { unfold s. rewrite run_app. cbn. apply (disable_inv _ _ Hb HR). }
-  pose proof (disable_restores_any (ops ++ [Disable]) s0 ld esc Hc Hst) as (A1 & A2 & A3 & A4 & _ & A6 & A7).
+  pose proof (disable_restores_any (ops ++ [Disable]) s0 ld esc at_ Hc Hst) as (A1 & A2 & A3 & A4 & _ & A6 & A7).
   fold s in A1, A2, A3, A4, A6, A7. repeat split; auto.
 Qed.
 
 (* in state ENABLED: one unadvise per advised joinpoint, none for the others, at most one remover per hook
    list, and each hook list holds exactly as many extra entries as it has removers - whatever the history *)
-Theorem enable_once : forall ops s0 ld esc,
+Theorem enable_once : forall ops s0 ld esc at_,
   clean s0 ->
-  let s := ai (run E ops (mkShell s0 ld esc)) in
+  let s := ai (run E ops (mkShell s0 ld esc at_)) in
   st s = ENABLED ->
   (forall j, count_unadvise j (disablers s) = if is_advice (slot s j) then 1 else 0) /\
   (forall j, count_unadvise j (disablers s) <= 1) /\
   (forall l, count_remove l (disablers s) <= 1).
 Proof.
-  intros ops s0 ld esc Hc s Hst.
+  intros ops s0 ld esc at_ Hc s Hst.
   destruct (clean_inv s0 Hc) as [HI Hb].
-  pose proof (run_inv (base_of s0) ops (mkShell s0 ld esc) Hb HI) as [Hg Hcase]. fold s in Hg, Hcase.
-  destruct Hcase as [[X _]|[_ [Hl _]]]; [congruence|].
+  pose proof (run_inv (base_of s0) ops (mkShell s0 ld esc at_) Hb HI) as [Hg Hcase]. fold s in Hg, Hcase.
+  destruct Hcase as [[X _]|[[_ [_ [Hl _]]]|[X _]]]; try congruence.
   destruct Hg as [_ _ Ho _]. repeat split.
   - exact Ho.
   - intros j. rewrite Ho. destruct (is_advice (slot s j)); lia.
   - exact Hl.
 Qed.
 
-(* between operations the importer is DISABLED or ENABLED, never in a transient state *)
-Theorem state_machine : forall ops s0 ld esc,
-  clean s0 -> let s := ai (run E ops (mkShell s0 ld esc)) in st s = DISABLED \/ st s = ENABLED.
+(* between operations the importer is DISABLED or ENABLED; it is ENABLING only while it waits for the shell
+   (enabled before app.initialize()), with init_shell advised; ENABLED implies that a shell exists *)
+Theorem state_machine : forall ops s0 ld esc at_,
+  clean s0 -> let s := ai (run E ops (mkShell s0 ld esc at_)) in
+  st s = DISABLED \/ (st s = ENABLED /\ has_shell s = true) \/
+  (st s = ENABLING /\ has_shell s = false /\ is_advice (slot s JInitShell) = true).
 Proof.
-  intros ops s0 ld esc Hc s.
+  intros ops s0 ld esc at_ Hc s.
   destruct (clean_inv s0 Hc) as [HI Hb].
-  pose proof (run_inv (base_of s0) ops (mkShell s0 ld esc) Hb HI) as [_ Hcase]. fold s in Hcase.
-  destruct Hcase as [[X _]|[X _]]; auto.
+  pose proof (run_inv (base_of s0) ops (mkShell s0 ld esc at_) Hb HI) as [_ Hcase]. fold s in Hcase.
+  destruct Hcase as [[X _]|[[X [Y _]]|[X [Y [_ [Z _]]]]]]; auto.
 Qed.
 
 (* while ENABLED the hooks this IPython can take are installed (the behavioural clause rests on this) *)
-Theorem enabled_hooks_installed : forall ops s0 ld esc,
-  clean s0 -> let s := ai (run E ops (mkShell s0 ld esc)) in st s = ENABLED -> installed s.
+Theorem enabled_hooks_installed : forall ops s0 ld esc at_,
+  clean s0 -> let s := ai (run E ops (mkShell s0 ld esc at_)) in st s = ENABLED -> installed s.
 Proof.
-  intros ops s0 ld esc Hc s Hst.
+  intros ops s0 ld esc at_ Hc s Hst.
   destruct (clean_inv s0 Hc) as [HI Hb].
-  pose proof (run_inv (base_of s0) ops (mkShell s0 ld esc) Hb HI) as [_ Hcase]. fold s in Hcase.
-  destruct Hcase as [[X _]|[_ [_ Hi]]]; [congruence|exact Hi].
+  pose proof (run_inv (base_of s0) ops (mkShell s0 ld esc at_) Hb HI) as [_ Hcase]. fold s in Hcase.
+  destruct Hcase as [[X _]|[[_ [_ [_ Hi]]]|[X _]]]; try congruence; exact Hi.
 Qed.
 
 (* everything the property names, as one comparable value *)
 Definition snapshot (s : state) :=
   (st s, disablers s, map (slot s) all_jps, ast_l s, cleanup_l s, line_l s, ast_tr s).
 
-Theorem no_residue : forall ops s0 ld esc,
+Theorem no_residue : forall ops s0 ld esc at_,
   clean s0 -> f6_fixed E = true ->
-  snapshot (ai (run E (ops ++ [Disable]) (mkShell s0 ld esc))) = snapshot s0.
+  snapshot (ai (run E (ops ++ [Disable]) (mkShell s0 ld esc at_))) = snapshot s0.
 Proof.
-  intros ops s0 ld esc Hc F6.
-  pose proof (disable_restores ops s0 ld esc Hc F6) as (A0 & A1 & A2 & A3 & A4 & A5 & A6). cbn zeta in *.
+  intros ops s0 ld esc at_ Hc F6.
+  pose proof (disable_restores ops s0 ld esc at_ Hc F6) as (A0 & A1 & A2 & A3 & A4 & A5 & A6). cbn zeta in *.
   destruct Hc as (C1 & C2 & C3 & _).
   unfold snapshot. rewrite A0, A2, A3, A4, A5, A6, C1, C2, C3.
   rewrite (map_ext _ _ A1). reflexivity.
@@ -984,9 +1085,10 @@ Proof.
   inversion HF as [|? ? Hh Hr]; subst. destruct (Hh s) as (s1 & b1 & Hs). rewrite Hs. cbn. apply IH. exact Hr.
 Qed.
 
-Lemma shell_hooks_total : enable_ok = true -> forall s, st s = ENABLING -> exists s' b, enable_shell_hooks E s = Ret s' b.
+Lemma shell_hooks_total : enable_ok = true -> forall s, st s = ENABLING -> has_shell s = true ->
+  exists s' b, enable_shell_hooks E s = Ret s' b.
 Proof.
-  intros Hok s Hst. unfold enable_shell_hooks. rewrite Hst. cbn [estate_eqb negb].
+  intros Hok s Hst Hsh. unfold enable_shell_hooks. rewrite Hst, Hsh. cbn [estate_eqb negb].
   apply run_hooks_total. unfold shell_hooks. repeat constructor; intros s0.
   - unfold enable_reset_hook. destruct (e_reset E); eauto.
   - unfold enable_ofind_hook. destruct (e_ofind E); eauto.
@@ -1002,17 +1104,97 @@ Proof.
 Qed.
 
 Theorem enable_succeeds : forall force s,
-  enable_ok = true -> st s = DISABLED -> (errored s = false \/ force = true) ->
+  enable_ok = true -> st s = DISABLED -> has_shell s = true -> (errored s = false \/ force = true) ->
   exists s', enable E force s = Ret s' tt /\ st s' = ENABLED /\ errored s' = false.
 Proof.
-  intros force s Hok Hst Herr. unfold enable. rewrite Hst.
+  intros force s Hok Hst Hsh Herr. unfold enable. rewrite Hst.
   assert (X : errored (reset_state_new_cell s) && negb force = false).
   { change (errored (reset_state_new_cell s)) with (errored s). destruct Herr as [->| ->]; [reflexivity|apply andb_false_r]. }
   rewrite X. set (s2 := set_st ENABLING (set_errored false (reset_state_new_cell s))).
-  destruct (shell_hooks_total Hok s2 eq_refl) as (s' & b & Hs).
-  unfold safe_call. change (errored s2) with false. cbn iota. unfold enable_internal. rewrite Hs. cbn.
-  eexists. split; [reflexivity|]. split; [reflexivity|].
-  pose proof (inst_shell_hooks s2) as Hi. rewrite Hs in Hi. cbn in Hi.
-  destruct (inst_misc _ _ Hi) as (_ & M2 & _). cbn. rewrite M2. reflexivity.
+  assert (Hsh2 : has_shell s2 = true) by exact Hsh.
+  unfold safe_call. change (errored s2) with false. cbn iota. unfold enable_internal, enable_initializer_hooks.
+  rewrite Hsh2. set (s3 := set_pending false s2).
+  destruct (shell_hooks_total Hok s3 eq_refl Hsh2) as (s' & b & Hs). rewrite Hs. cbn [bind].
+  pose proof (inst_shell_hooks s3) as Hi. rewrite Hs in Hi. cbn in Hi.
+  destruct (inst_misc _ _ Hi) as (_ & M2 & _ & _ & _ & _ & _ & M8 & _).
+  assert (Hp : pending s' = false) by (rewrite M8; reflexivity).
+  rewrite Hp. destruct b; cbn; (eexists; split; [reflexivity|]; split; [reflexivity|]; cbn; rewrite M2; reflexivity).
+Qed.
+
+(* ------------------------------------------------------------------------------------------ *)
+(* the session-local database (names registered with add_import) survives every operation *)
+
+Lemma disable_registered : forall s, registered (disable s) = registered s.
+Proof.
+  intros s. unfold disable. destruct (estate_eqb (st s) DISABLED); [reflexivity|].
+  pose proof (run_disablers_spec (disablers (set_st DISABLING s)) (set_st DISABLING s)) as H. cbn zeta in H.
+  destruct H as (_ & _ & _ & _ & _ & _ & _ & _ & _ & _ & _ & _ & _ & H). cbn. exact H.
+Qed.
+
+Lemma safe_enable_internal_registered : forall s,
+  registered (res_state (safe_call (e_debug E) RIfDebug (enable_internal E) None s)) = registered s.
+Proof.
+  intros s. unfold safe_call. destruct (errored s); [reflexivity|].
+  unfold enable_internal.
+  destruct (initializer_spec s) as (s1 & Hi1 & Heq & _).
+  destruct (inst_misc _ _ Hi1) as (_ & _ & _ & _ & _ & _ & _ & _ & R1).
+  assert (R3 : registered (enable_initializer_hooks E s) = registered s) by (rewrite Heq; exact R1).
+  pose proof (inst_shell_hooks (enable_initializer_hooks E s)) as Hi.
+  destruct (enable_shell_hooks E (enable_initializer_hooks E s)) as [s' ok|s' e]; cbn [bind res_state] in *.
+  - destruct (inst_misc _ _ Hi) as (_ & _ & _ & _ & _ & _ & _ & _ & R).
+    destruct ok; [|destruct (pending s')]; cbn; congruence.
+  - destruct (inst_misc _ _ Hi) as (_ & _ & _ & _ & _ & _ & _ & _ & R).
+    assert (Hd : registered (disable (log_emit (set_errored true s'))) = registered s).
+    { rewrite disable_registered. unfold log_emit. destruct (log_pre (set_errored true s')); cbn; congruence. }
+    destruct (is_Exception e); [|cbn; congruence].
+    destruct (e_debug E); cbn; exact Hd.
+Qed.
+
+Lemma enable_registered : forall force s, registered (res_state (enable E force s)) = registered s.
+Proof.
+  intros force s. unfold enable. destruct (st s); try reflexivity.
+  destruct (errored (reset_state_new_cell s) && negb force); [reflexivity|].
+  rewrite res_state_bind_unit, safe_enable_internal_registered. reflexivity.
+Qed.
+
+Lemma initialize_registered : forall s, registered (res_state (initialize E s)) = registered s.
+Proof.
+  intros s. unfold initialize. destruct (has_shell s); [reflexivity|].
+  destruct (is_advice (slot s JInitShell)); [|reflexivity].
+  unfold continue_enable. destruct (negb (estate_eqb (st (set_has_shell true s)) ENABLING)); [reflexivity|].
+  rewrite res_state_bind_unit, safe_enable_internal_registered. reflexivity.
+Qed.
+
+Lemma step_registered : forall sh o,
+  registered (ai (step E sh o)) =
+  match o with
+  | AddImport id => if ext_attr sh then id :: registered (ai sh) else registered (ai sh)
+  | _ => registered (ai sh)
+  end.
+Proof.
+  intros sh o. unfold step, load_fn, unload_fn. destruct o; cbn zeta; rewrite ?finish_ai.
+  - apply enable_registered.
+  - destruct (enable E false (ai sh)) as [s1 u|s1 e] eqn:H; cbn [bind res_state].
+    + rewrite enable_registered. pose proof (enable_registered false (ai sh)) as X. rewrite H in X. exact X.
+    + pose proof (enable_registered false (ai sh)) as X. rewrite H in X. exact X.
+  - cbn [ai]. apply disable_registered.
+  - destruct (ext_loaded sh); [reflexivity|]. rewrite finish_ai. apply enable_registered.
+  - destruct (ext_loaded sh); [|reflexivity]. rewrite finish_ai. cbn. apply disable_registered.
+  - destruct (ext_loaded sh); rewrite finish_ai; cbn [bind].
+    + rewrite enable_registered. apply disable_registered.
+    + apply enable_registered.
+  - apply enable_registered.
+  - cbn. apply disable_registered.
+  - apply initialize_registered.
+  - destruct (ext_attr sh); reflexivity.
+Qed.
+
+(* no enable / disable / load / unload / reload / initialize ever forgets a registered name *)
+Theorem registered_kept : forall ops sh id,
+  In id (registered (ai sh)) -> In id (registered (ai (run E ops sh))).
+Proof.
+  intros ops. induction ops as [|o r IH]; intros sh id H; cbn; [exact H|].
+  apply IH. rewrite step_registered. destruct o; try exact H.
+  destruct (ext_attr sh); [right|]; exact H.
 Qed.
 End WithEnv.
